@@ -137,4 +137,38 @@ func init() {
 					{src: "inc", name: "inc", typ: "int"}}}},
 		})
 	})
+	register("CodeLexing", func(repo string) (string, error) {
+		tm := map[string]string{"*Error": "goerr", "[]*Error": "[]goerr", "*Token": "token"}
+		lex := func(name string) codeTarget {
+			return codeTarget{dir: "lexing", name: name, cfg: transCfg{
+				res: true, fuel: "S (List.length x_in)", typeMap: tm,
+				objects: map[string]string{"x": "lexer"}}}
+		}
+		return emitCodeArea(repo, "CodeLexing", []codeTarget{
+			// ErrorList.Add: the receiver's fields are state; e == nil is the Go panic
+			{dir: "lexing", recv: "ErrorList", name: "Add", cfg: transCfg{
+				res: true, typeMap: tm, stateOut: []string{"lst.errs", "lst.inJail"},
+				params: []pspec{
+					{src: "lst.errs", name: "lst_errs", typ: "[]goerr"},
+					{src: "lst.Max", name: "lst_Max", typ: "int"},
+					{src: "lst.inJail", name: "lst_inJail", typ: "bool"},
+					{src: "e", name: "e_nil", typ: tNilness},
+					{src: "e", name: "e", typ: "goerr"}}}},
+			{dir: "lexing", name: "IsLetter"},
+			{dir: "lexing", name: "IsDigit"},
+			{dir: "lexing", name: "IsHexDigit"},
+			{dir: "lexing", name: "IsIdentLetter"},
+			{dir: "lexing", name: "IsWhite"},
+			{dir: "lexing", name: "IsWhiteOrEndl"},
+			lex("lexLineComment"),
+			lex("lexBlockComment"),
+			lex("LexComment"),
+			lex("LexNumber"),
+			lex("LexIdent"),
+			{dir: "lexing", name: "digitVal"},
+			lex("lexEscape"),
+			lex("LexRawString"),
+			lex("LexString"),
+		})
+	})
 }
